@@ -132,6 +132,11 @@ class C05(props.Prop):
                 v.violate('write-by-non-main', 'C05:write-by-non-main',
                           f'output write #{k} issued by actor {w["actor"]}')
             okacc = any(d == w['dig'] and s <= w['seq0'] for d, s in accepted)
+            if not rec.checks and rec.inv:
+                # the check probe is not in place (renamed function): this
+                # rule cannot be evaluated
+                v.probes['rule_skipped.write-not-accepted'] += 1
+                okacc = True
             if not okacc:
                 v.violate(
                     'write-not-accepted', 'C05:write-not-accepted',
